@@ -201,6 +201,18 @@ template <class R> struct RingH : RingBase {
         if (op == "isZero" && need(1)) { EL(x, 0) return F->isZero(x) ? "1" : "0"; }
         if (op == "isOne" && need(1)) { EL(x, 0) return F->isOne(x) ? "1" : "0"; }
         if (op == "areEqual" && need(2)) { EL(x, 0) EL(y, 1) return F->areEqual(x, y) ? "1" : "0"; }
+        if (op == "assign" && need(1)) {
+            // a ring object ASSIGNED from *F (modulus m): the destination was built with modulus a[0] (0: default-constructed)
+            R A;
+            if (a[0] != 0) { Res p1; if (!ElIO<Res>::from(p1, a[0])) return "NOMOD"; R B(p1); A = B; }
+            A = *F;
+            E e; A.init(e);
+            A.init(e, (int64_t)-1);
+            E mx = A.maxElement(), mn = A.minElement();
+            Res c = A.cardinality();
+            return RIO<R>::to(A, A.zero) + " " + RIO<R>::to(A, A.one) + " " + RIO<R>::to(A, A.mOne) + " " + RIO<R>::to(A, e) + " "
+                   + (A.isMOne(e) ? "1" : "0") + " " + RIO<R>::to(A, mx) + " " + RIO<R>::to(A, mn) + " " + ElIO<Res>::to(c);
+        }
         if (op == "hist" && n >= 4) {
             // a history: registers r0..r3, then one code per API call: op*256 + d*64 + a*16 + b*4 + c
             E reg[4];
@@ -296,11 +308,11 @@ template <> struct RawOps<Modular<Log16>> {
 // which source / target types each ring's init / convert is exercised with
 template <class R, class = void> struct SrcList {
     static std::vector<std::string> src() { return {"s8", "u8", "s16", "u16", "s32", "u32", "s64", "u64", "f32", "f64", "Z"}; }
-    static std::vector<std::string> dst() { return {"s64", "u64", "f64", "Z"}; }
+    static std::vector<std::string> dst() { return {"s8", "u8", "s16", "u16", "s32", "u32", "s64", "u64", "f32", "f64", "Z"}; }
 };
 template <> struct SrcList<Modular<Log16>, void> {
     static std::vector<std::string> src() { return {"s16", "u16", "s32", "u32", "s64", "u64", "f32", "f64", "Z"}; }
-    static std::vector<std::string> dst() { return {"s64", "u64", "f64", "Z"}; }
+    static std::vector<std::string> dst() { return {"s16", "u16", "s32", "u32", "s64", "u64", "f64", "Z"}; }
 };
 template <class R> std::vector<std::string> RingH<R>::initSources() const { return SrcList<R>::src(); }
 template <class R> std::vector<std::string> RingH<R>::convertTargets() const { return SrcList<R>::dst(); }
@@ -331,10 +343,25 @@ template <class R> std::string RingH<R>::run2(const std::string& op, const std::
         if (s == "f32") return do_init<float>(a[0]);
         if (s == "f64") return do_init<double>(a[0]);
         if (s == "Z") return do_init<Integer>(a[0]);
+        if (s == "f64h") {   // the double a[0]/2 (a non-integer when a[0] is odd)
+            if (abs(a[0]) >= zpow2(53)) return "NOSRC";
+            double d = a[0].get_d() / 2.0;
+            E e; F->init(e); F->init(e, d);
+            return out(e);
+        }
         return "NOSRC";
     }
     if (n == 1 && op.compare(0, 8, "convert_") == 0) {
         std::string s = op.substr(8);
+        if constexpr (!std::is_same<R, Modular<Log16>>::value) {   // the log-table ring has a fixed list of convert overloads
+            if (s == "s8") return do_convert<int8_t>(a[0]);
+            if (s == "u8") return do_convert<uint8_t>(a[0]);
+            if (s == "f32") return do_convert<float>(a[0]);
+        }
+        if (s == "s16") return do_convert<int16_t>(a[0]);
+        if (s == "u16") return do_convert<uint16_t>(a[0]);
+        if (s == "s32") return do_convert<int32_t>(a[0]);
+        if (s == "u32") return do_convert<uint32_t>(a[0]);
         if (s == "s64") return do_convert<int64_t>(a[0]);
         if (s == "u64") return do_convert<uint64_t>(a[0]);
         if (s == "f64") return do_convert<double>(a[0]);
@@ -642,6 +669,16 @@ static void gen_c04(RingBase* R, vp::Rng& g, bool thorough) {
     for (auto& m : ms) {
         run_line(R->tag + ".consts", m, {});
         run_line(R->tag + ".card", m, {});
+        if (!R->c04_only) {
+            // the ring assigned onto a default-constructed ring and onto rings of other moduli
+            run_line(R->tag + ".assign", m, {Z(0)});
+            run_line(R->tag + ".assign", m, {ms.front()});
+            run_line(R->tag + ".assign", m, {ms.back()});
+            run_line(R->tag + ".assign", m, {ms[ms.size() / 2]});
+            // non-integer doubles (k + 1/2): what the code defines for them is compared with the model where it has one
+            for (auto& v : std::vector<Z>{1, -1, 3, -3, 2 * m + 1, -(2 * m + 1), 2 * m - 1, zpow2(40) + 1, -(zpow2(52) + 1), 4, -6})
+                run_line(R->tag + ".init_f64h", m, {v});
+        }
         for (auto& s : R->initSources()) {
             Z lo = src_lo(s), hi = src_hi(s);
             unsigned mant = src_mant(s);
